@@ -220,6 +220,45 @@ func VH_C14_RackAffinity(M, P, R int) {
 // the join response, reads the partitions of every subscribed topic from the broker (which answers only for the
 // topics it is asked about) and runs the negotiated balancer. Members subscribe to different topics; the leader
 // itself consumes only the first topic.
+// vhGroupRecorder is a GroupBalancer that records the members it is given and assigns nothing.
+type vhGroupRecorder struct{ members []GroupMember }
+
+func (b *vhGroupRecorder) ProtocolName() string { return "vh-recorder" }
+func (b *vhGroupRecorder) UserData() ([]byte, error) { return nil, nil }
+func (b *vhGroupRecorder) AssignGroups(members []GroupMember, partitions []Partition) GroupMemberAssignments {
+	b.members = append(b.members, members...)
+	return GroupMemberAssignments{}
+}
+
+// what the leader hands to the negotiated balancer: every member with its id, its topics and the user data it sent
+// (the rack, for the rack-affinity balancer) - whatever the version of the subscription that carried them
+func VH_C14_LeaderMembers() {
+	rec := &vhGroupRecorder{}
+	co := &vhCoordinator{filterTopics: true}
+	co.parts = []Partition{{Topic: "t1", ID: 0}}
+	cg := &ConsumerGroup{config: ConsumerGroupConfig{ID: "g", Topics: []string{"t1"}, GroupBalancers: []GroupBalancer{rec}}}
+	join := joinGroupResponse{GroupProtocol: "vh-recorder", LeaderID: "leader", MemberID: "leader"}
+	ids := []string{"leader", "m2"}
+	data := make([][]byte, len(ids))
+	for i, id := range ids {
+		data[i] = vhBytes("user_data_of_"+id, 2)
+		version := int16(vhChoose("subscription_version_of_"+id, 2))
+		join.Members = append(join.Members, joinGroupResponseMember{MemberID: id, MemberMetadata: groupMetadata{Version: version, Topics: []string{"t1"}, UserData: data[i]}.bytes()})
+	}
+	_, err := cg.assignTopicPartitions(co, join)
+	vhAssert(err == nil, "leader-assignment-ok")
+	vhAssert(len(rec.members) == len(ids), "balancer-is-given-every-member")
+	for i := range ids {
+		if i >= len(rec.members) {
+			break
+		}
+		m := rec.members[i]
+		vhAssert(m.ID == ids[i] && len(m.Topics) == 1 && m.Topics[0] == "t1", "balancer-is-given-the-members-id-and-topics")
+		vhAssert(vhBytesEq(m.UserData, data[i]), "balancer-is-given-the-user-data-the-member-sent")
+	}
+	vhReach("c14-leader-members")
+}
+
 func VH_C14_LeaderAssignment(kind int) {
 	protocolName := []string{"range", "roundrobin"}[kind]
 	co := &vhCoordinator{filterTopics: true}
